@@ -718,6 +718,22 @@ pub fn run(tier: Tier, replay: Option<&str>) {
             }
         }
     }
+    // (nb) the same search with the board's millisecond clock just below 2^31 ms and just below the 2^32 ms wrap:
+    // the window times computed from the TX-done timestamp must wrap with the clock instead of panicking
+    for region in regions.iter().take(2) {
+        for otaa in [false, true] {
+            for clock in [0x7FFF_FE00u32, 0xFFFF_FB00] {
+                let mut dev = if otaa { DevCfg::otaa(region) } else { DevCfg::abp(region) };
+                dev.clock_start = Some(clock);
+                let bc = BCfg { front: "nb".into(), dev: dev.clone() };
+                let cj = serde_json::to_value(&bc).unwrap();
+                let st = explore::bfs(&ctx, &cj, &|| BSys::new("nb", &dev), 3, 250_000);
+                states += st.states;
+                transitions += st.transitions;
+                capped |= st.capped;
+            }
+        }
+    }
     // ---- Layer C: long runs of unanswered join attempts (the walk over the join channels of the fixed plans
     // keeps state that only shows after many attempts), with and without a join bias
     let mut join_runs = 0u64;
